@@ -466,12 +466,12 @@ impl Property for C06 {
         "C06"
     }
     fn rule(&self) -> &'static str {
-        "Cases: tostr (value x radix 2..=36 plus bad radices 0,1,37,u32::MAX: to_str_radix of BigInt/BigUint against the reference text, lower-case alphabet, parse-back incl. upper-case, Display/FromStr for radix 10), toradix (value x radix 2..=256 plus bad radices: to_radix_le/be of both types, from_radix round trips), parse (byte strings generated from the grammar sign? lead-zeros digit (digit|_)* in a random radix and letter case, then mutated by inserting/replacing/truncating/prefixing with signs, '_', out-of-radix digits, whitespace, punctuation next to the digit ranges, non-ASCII and invalid UTF-8; an independent recogniser decides well-formedness and Horner evaluation in RefInt gives the value; checked through parse_bytes, from_str_radix and FromStr of both types), fromradix (digit slices with and without out-of-range digits, empty, leading zeros, radix 2..=256, all three signs), fmt (320 static format specs = {no align,<,^,>,*<,*^,*>} x {+} x {#} x {0} x {Display,b,o,x,X} with a runtime width 0..40 plus the width-less variants, for BigInt and BigUint, against an independent padding model that is itself compared with std's formatting of i128/u128 in every run). Values: 0, single digits, lengths 62..66 around the 64-digit big-base threshold and up to 200 (quick) / 2000 (thorough) digits, radix^j+{-1,0,1}, k*radix^j (long zero runs), all-ones. Non-trivial: value >= 2 native digits, or a string with '_', a sign, leading zeros or >= 20 digits; all fmt cases."
+        "Cases: tostr (value x radix 2..=36 plus bad radices 0,1,37,u32::MAX: to_str_radix of BigInt/BigUint against the reference text, lower-case alphabet, parse-back incl. upper-case, Display/FromStr for radix 10), toradix (value x radix 2..=256 plus bad radices: to_radix_le/be of both types, from_radix round trips), parse (byte strings generated from the grammar sign? lead-zeros digit (digit|_)* in a random radix and letter case, then mutated by inserting/replacing/truncating/prefixing with signs, '_', out-of-radix digits, whitespace, punctuation next to the digit ranges, non-ASCII and invalid UTF-8; an independent recogniser decides well-formedness and Horner evaluation in RefInt gives the value; checked through parse_bytes, from_str_radix and FromStr of both types), fromradix (digit slices with and without out-of-range digits, empty, leading zeros, radix 2..=256, all three signs), fmt (320 static format specs = {no align,<,^,>,*<,*^,*>} x {+} x {#} x {0} x {Display,b,o,x,X} with a runtime width 0..40 plus the width-less variants, for BigInt and BigUint, against an independent padding model that is itself compared with std's formatting of i128/u128 in every run). Values: 0, single digits, lengths 62..66 around the 64-digit big-base threshold and up to 200 (quick) / 700 (thorough) digits, radix^j+{-1,0,1}, k*radix^j (long zero runs), all-ones. Non-trivial: value >= 2 native digits, or a string with '_', a sign, leading zeros or >= 20 digits; all fmt cases."
     }
     fn strategy(&self, tier: Tier) -> BoxedStrategy<Case> {
         let ml = match tier {
             Tier::Quick => 200,
-            Tier::Thorough => 2000,
+            Tier::Thorough => 700,
         };
         let bad_text = select(vec![0u32, 1, 37, 38, 256, u32::MAX]);
         let bad_digit = select(vec![0u32, 1, 257, 258, 1000, 512, 1024, 65536, 1 << 31, u32::MAX]);
